@@ -14,6 +14,8 @@ from concurrent.futures import ProcessPoolExecutor
 VERIF = pathlib.Path(__file__).resolve().parent.parent
 NEUTRAL = VERIF / "neutral"
 PROPS = ["C01", "C03", "C04", "C05", "C07", "C08", "C09", "C10", "C11", "C12", "C13", "C14", "C15", "C16", "C17", "C18", "C20"]
+if os.environ.get("SA_PROPS"):  # restrict the checks run (re-measurement after a change to some rules)
+    PROPS = os.environ["SA_PROPS"].split(",")
 
 
 def run_one(nid: str) -> dict:
@@ -39,7 +41,7 @@ def run_one(nid: str) -> dict:
 
 def main():
     ids = sys.argv[1:] or sorted(p.name for p in NEUTRAL.iterdir() if (p / "patch.diff").exists())
-    with ProcessPoolExecutor(max_workers=8) as ex:
+    with ProcessPoolExecutor(max_workers=int(os.environ.get("SA_JOBS", "8"))) as ex:
         rows = list(ex.map(run_one, ids))
     if not sys.argv[1:]:
         (NEUTRAL / "MATRIX.json").write_text(json.dumps({r["id"]: r for r in rows}, indent=1) + "\n")
